@@ -18,11 +18,45 @@ open Mkdb.Sql Mkdb.Exec.NoPanicP
 /-- **C18.no_panic_partial**: on well-shaped tables, whatever the query (unknown, ambiguous or
 duplicated columns, wrong-typed comparisons, AVG over non-integers, empty tables, NULLs …),
 evaluation returns rows or an error value; the single remaining panic of the model is the
-sort comparator meeting two non-NULL values of different types in one ORDER BY column. -/
+sort comparator meeting two non-NULL values of different types in one ORDER BY column.
+Hypothesis `hq` (`ParsedShape`, decidable; spelled out in `C18_parsedShape_def`): the select list is not
+empty, it is `*` alone or does not start with `*`, and no written LIMIT / OFFSET is negative.  Every
+SELECT the parser returns has this shape (`C18_parsed_select_has_the_shape`); the exported function
+`engine.EvaluateSelect` takes it for granted, and a hand-built statement without it panics, in the Go
+code as in the model: `C18_empty_list_and_negative_bounds_counterexample`,
+`C18_star_aggregate_counterexample`, `C18_star_group_by_counterexample`. -/
 theorem C18_no_panic_partial {fetch : Bytes → Option Table} (hw : WellShaped fetch) (q : Select)
-    (hq : (∃ a, q.list = [⟨.star, a⟩]) ∨ isStar q.list = false) (s : String)
+    (hq : ParsedShape q) (s : String)
     (h : evaluateSelect fetch q = .panic s) : s = "sortColumns: no comparison available" :=
   no_panic_except_sort_parsed_shape hw q hq s h
+
+/-- the shape hypothesis, spelled out -/
+theorem C18_parsedShape_def (q : Select) :
+    ParsedShape q ↔ q.list ≠ [] ∧ (isStar q.list = true → q.list.length = 1) ∧
+      ((!q.lim.offsetActive || decide (0 ≤ q.lim.offset)) &&
+       (!q.lim.limitActive || decide (0 ≤ q.lim.limit))) = true := Iff.rfl
+
+/-- in the terms of the earlier statement of the theorem: `*` alone, or a non-empty list that does not
+start with `*`; and bounds that are not negative -/
+theorem C18_parsedShape_iff (q : Select) :
+    ParsedShape q ↔ ((∃ a, q.list = [⟨.star, a⟩]) ∨ (isStar q.list = false ∧ q.list ≠ [])) ∧
+      Spec.boundsOK q.lim = true := by
+  constructor
+  · intro h
+    refine ⟨?_, h.bounds⟩
+    rcases h.star with e | e
+    · exact .inl e
+    · exact .inr ⟨e, h.ne_nil⟩
+  · rintro ⟨⟨a, e⟩ | ⟨e, hne⟩, hb⟩
+    · exact ParsedShape.of_star hb e
+    · exact ParsedShape.of_nostar hne hb e
+
+/-- non-vacuity: `SELECT * FROM t LIMIT 5 OFFSET 0` and `SELECT count(*) FROM t` have the shape -/
+example : ParsedShape
+      { list := [⟨.star, []⟩]
+        from_ := some (.table ⟨[116], none⟩)
+        lim := { limitActive := true, limit := 5, offsetActive := true } } ∧
+    ParsedShape { list := [⟨.count none, []⟩], from_ := some (.table ⟨[116], none⟩) } := by decide
 
 /-- **C18.sort_safe**: that remaining panic cannot occur when every ORDER BY column holds
 values of one type or NULL — which is what typed storage (C08) delivers. -/
@@ -32,24 +66,47 @@ theorem C18_sort_safe (ob : List SortSpec) (hdr : List Field) (rows : List Row)
     (s : String) : sortColumns ob hdr rows ≠ .panic s :=
   sort_safe_of_comparable ob hdr rows h s
 
-/-- the shape hypothesis of `C18_no_panic_partial` is necessary: a select list that starts with
-`*` and also holds an aggregate (which the parser never builds) would index past the row -/
+/-- the shape hypothesis of `C18_no_panic_partial` is necessary (1): `SELECT *, count(*), 1 FROM t` - a
+select list that starts with `*` and also holds an aggregate, which the parser never builds.  The rows
+of a `*` list are not projected, and the grouping loop indexes them with the select-list position of
+the COUNT - from the second row of a group on: on the one-column table with the rows 1, 2 (one group)
+`Vals[1]` is past the end of the row, a panic; on ONE row the loop touches nothing and the answer is
+that row, `[[1]]`.  Both as the Go code (`EvaluateSelect` on the hand-built statement: `index out of
+range [1] with length 1`, resp. `[[1]]`). -/
 theorem C18_star_aggregate_counterexample :
-    evaluateSelect (fun _ => some ⟨[[105]], [[.int 1]]⟩)
-      { list := [⟨.star, []⟩, ⟨.count none, []⟩, ⟨.expr (.val (.lit (.int 1))), []⟩],
-        from_ := some (.table ⟨[116], none⟩) } = .panic "aggregateRows: Vals[colIdx]" :=
-  star_aggregate_panics
+    evaluateSelect (fun _ => some ⟨[[105]], [[.int 1], [.int 2]]⟩) exStarAgg =
+      .panic "aggregateRows: Vals[colIdx]" ∧
+    evaluateSelect (fun _ => some ⟨[[105]], [[.int 1]]⟩) exStarAgg = .ok ([[.int 1]], [⟨[116], [105]⟩]) ∧
+    ¬ ParsedShape exStarAgg :=
+  ⟨star_aggregate_panics.1, star_aggregate_panics.2, by decide⟩
 
-/-- likewise for the grouping path without an aggregate (`SELECT a FROM t GROUP BY a` groups): a
+/-- likewise (2) for the grouping path without an aggregate (`SELECT a FROM t GROUP BY a` groups): a
 select list that starts with `*` and goes on (which the parser never builds) with a GROUP BY on a
-later column would index past the row.  With a list the parser can build the path is covered by
-`C18_no_panic_partial`: the projected rows have one value per select-list element. -/
+later column indexes the unprojected row with the select-list position of that column for the group
+key - past the end of a one-column row, on the first row already (Go: `index out of range [1] with
+length 1`).  With a list the parser can build the path is covered by `C18_no_panic_partial`: the
+projected rows have one value per select-list element. -/
 theorem C18_star_group_by_counterexample :
     evaluateSelect (fun _ => some ⟨[[105]], [[.int 1]]⟩)
       { list := [⟨.star, []⟩, ⟨.expr (.val (.col ⟨[], [105]⟩)), []⟩],
         from_ := some (.table ⟨[116], none⟩),
-        groupBy := [⟨[], [105]⟩] } = .panic "aggregateRows: Vals[colIdx]" :=
+        groupBy := [⟨[], [105]⟩] } = .panic "aggregateRows: groupKey row.Vals[idx]" :=
   star_group_by_panics
+
+/-- and (3): an empty select list is indexed at `[0]` (with or without FROM), an active negative LIMIT
+or OFFSET is a slice out of range - on a table without rows already (Go: `index out of range [0] with
+length 0`, `slice bounds out of range [:-1]`, `[-1:]`).  The parser returns no such statement. -/
+theorem C18_empty_list_and_negative_bounds_counterexample :
+    evaluateSelect (fun _ => some ⟨[[105]], []⟩) { list := [], from_ := some (.table ⟨[116], none⟩) } =
+      .panic "projectColumns: selectList[0]" ∧
+    evaluateSelect (fun _ => none) { list := [] } = .panic "projectColumns: selectList[0]" ∧
+    evaluateSelect (fun _ => some ⟨[[105]], []⟩)
+      { list := [⟨.star, []⟩], from_ := some (.table ⟨[116], none⟩),
+        lim := { limitActive := true, limit := -1 } } = .panic "limit: rows[0:limit]" ∧
+    evaluateSelect (fun _ => some ⟨[[105]], []⟩)
+      { list := [⟨.star, []⟩], from_ := some (.table ⟨[116], none⟩),
+        lim := { offsetActive := true, offset := -1 } } = .panic "offset: rows[offset:]" :=
+  empty_list_and_negative_bounds_panic
 
 end Mkdb.Exec
 
@@ -258,7 +315,7 @@ as a grouping column (`aggregateRows_kinded`: read from the first row of the gro
 integers, over an empty input too; a literal has its own kind; a comparison, AND, OR gives a boolean or an
 error value (`evaluate_kind`).  No expression kind breaks this - no reachable sort panic was found. -/
 theorem C18_select_output_columns_are_typed {fetch : Bytes → Option Table} (hk : KindedFetch fetch) (q : Select)
-    (hq : (∃ a, q.list = [⟨.star, a⟩]) ∨ isStar q.list = false) :
+    (hq : Exec.NoPanicP.ParsedShape q) :
     (∀ s, evaluateSelect fetch q ≠ .panic s) ∧
     ∀ rows hdr, evaluateSelect fetch q = .ok (rows, hdr) → ∃ ks : List Kind, ∀ r ∈ rows, rowHas ks r = true :=
   ⟨evaluateSelect_no_panic hk q hq, fun _ _ e => (evaluateSelect_kinded hk q hq).of_ok e⟩
@@ -267,7 +324,7 @@ theorem C18_select_output_columns_are_typed {fetch : Bytes → Option Table} (hk
 kinded by `outKinds` - the kinds of the sources for `SELECT *`, the `itemKind`s of the select list
 otherwise - which is what `C18_sort_safe` needs for every ORDER BY key, whatever position it resolves to -/
 theorem C18_sorted_rows_are_comparable (q : Select) (fields : List Field) (ks : List Kind) (rows : List Row)
-    (hq : (∃ a, q.list = [⟨.star, a⟩]) ∨ isStar q.list = false)
+    (hq : Exec.NoPanicP.ParsedShape q)
     (hlen : ∀ r ∈ rows, r.length = fields.length) (hk : ∀ r ∈ rows, rowHas ks r = true)
     (out : List Row) (hdr : List Field) (h : SelectP.selectTail q fields rows = .ok (out, hdr)) :
     (∀ r ∈ out, rowHas (outKinds q.list fields ks) r = true) ∧
@@ -289,7 +346,7 @@ example : (∀ r ∈ Mkdb.Store.exKT.rows, r.length = [(⟨[116], [97]⟩ : Fiel
 /-- non-vacuity: a table with an integer and a string column (with a NULL) is kinded; its LEFT JOIN with
 itself, sorted on a column the padding fills with NULLs, evaluates to the four rows -/
 example : KindedFetch Mkdb.Store.exKFetch ∧
-    ((∃ a, Mkdb.Store.exJoinQuery.list = [⟨.star, a⟩]) ∨ isStar Mkdb.Store.exJoinQuery.list = false) ∧
+    (Exec.NoPanicP.ParsedShape Mkdb.Store.exJoinQuery) ∧
     Mkdb.Store.selectGives (evaluateSelect Mkdb.Store.exKFetch Mkdb.Store.exJoinQuery)
       [[.int 1, .str [120], .int 3, .str [121]], [.int 2, .null, .int 3, .str [121]],
        [.int 1, .str [120], .int 2, .null], [.int 3, .str [121], .null, .null]]
@@ -355,7 +412,7 @@ Termination: `evaluateSelect` is structural recursion on the row lists, `Fetch` 
 invariant named in `C18_stored_tables_are_typed`. -/
 theorem C18_select_on_stored_tables_never_panics (db : Engine.DB) (sdb : Spec.SDB) (pt sch : Levels)
     (tbls : List (Bytes × Levels)) (h : DbInv db sdb pt sch tbls) (q : Select)
-    (hq : (∃ a, q.list = [⟨.star, a⟩]) ∨ isStar q.list = false) (hn : UserTables q) :
+    (hq : Exec.NoPanicP.ParsedShape q) (hn : UserTables q) :
     (∀ n ∈ selectNames q, FetchTotal db n) ∧ (∀ s, evaluateSelect (fetchOf db) q ≠ .panic s) ∧
     ∀ rows hdr, evaluateSelect (fetchOf db) q = .ok (rows, hdr) → ∃ ks : List Kind, ∀ r ∈ rows, rowHas ks r = true :=
   select_on_stored_never_panics h.abs q hq hn
@@ -363,7 +420,7 @@ theorem C18_select_on_stored_tables_never_panics (db : Engine.DB) (sdb : Spec.SD
 /-- the same from the relation `Rel` of the refinement theorems (C01) -/
 theorem C18_select_on_related_database_never_panics (db : Engine.DB) (sdb : Spec.SDB) (pt sch : Levels)
     (tbls : List (Bytes × Levels)) (h : Rel db pt sch tbls sdb) (q : Select)
-    (hq : (∃ a, q.list = [⟨.star, a⟩]) ∨ isStar q.list = false) (hn : UserTables q) :
+    (hq : Exec.NoPanicP.ParsedShape q) (hn : UserTables q) :
     (∀ n ∈ selectNames q, FetchTotal db n) ∧ ∀ s, evaluateSelect (fetchOf db) q ≠ .panic s :=
   ⟨(select_on_stored_never_panics h.1 q hq hn).1, (select_on_stored_never_panics h.1 q hq hn).2.1⟩
 
@@ -374,8 +431,8 @@ example : Rel tableDB ptT schT [(tname, tT)] sdbA0 := rel_tableDB
 ORDER BY a` and for `SELECT * FROM t x LEFT JOIN t y ON x.a < y.a ORDER BY y.a DESC`, and both evaluate
 (computed) to no rows under their headers -/
 example : DbInv tableDB sdbA0 ptT schT [(tname, tT)] ∧
-    ((∃ a, exGroupQuery.list = [⟨.star, a⟩]) ∨ isStar exGroupQuery.list = false) ∧ UserTables exGroupQuery ∧
-    ((∃ a, exJoinQuery.list = [⟨.star, a⟩]) ∨ isStar exJoinQuery.list = false) ∧ UserTables exJoinQuery ∧
+    (Exec.NoPanicP.ParsedShape exGroupQuery) ∧ UserTables exGroupQuery ∧
+    (Exec.NoPanicP.ParsedShape exJoinQuery) ∧ UserTables exJoinQuery ∧
     selectGives (evaluateSelect (fetchOf tableDB) exGroupQuery) []
       [⟨tname, [97]⟩, ⟨[], "count(*)".toUTF8.toList⟩] = true ∧
     selectGives (evaluateSelect (fetchOf tableDB) exJoinQuery) [] [⟨[120], [97]⟩, ⟨[121], [97]⟩] = true :=
@@ -396,24 +453,25 @@ rows under a schema of distinct column names; then those rows are typed too, `fe
 check is a hypothesis on the database, not proved to be kept by the statements. -/
 theorem C18_select_on_any_table_never_panics (db : Engine.DB) (sdb : Spec.SDB) (pt sch : Levels)
     (tbls : List (Bytes × Levels)) (h : DbInv db sdb pt sch tbls) (hc : catalogOK db = true) (q : Select)
-    (hq : (∃ a, q.list = [⟨.star, a⟩]) ∨ isStar q.list = false) :
+    (hq : Exec.NoPanicP.ParsedShape q) :
     (∀ n ∈ selectNames q, FetchTotal db n) ∧ ∀ s, evaluateSelect (fetchOf db) q ≠ .panic s :=
   select_any_table_never_panics h.abs hc q hq
 
 /-- non-vacuity: the computed database passes the check, and `SELECT * FROM sys_schema ORDER BY field_type`
 returns (computed) the seven rows of the catalog under four columns -/
 example : DbInv tableDB sdbA0 ptT schT [(tname, tT)] ∧ catalogOK tableDB = true ∧
-    ((∃ a, exCatalogQuery.list = [⟨.star, a⟩]) ∨ isStar exCatalogQuery.list = false) ∧
+    (Exec.NoPanicP.ParsedShape exCatalogQuery) ∧
     (match evaluateSelect (fetchOf tableDB) exCatalogQuery with
       | .ok (rows, hdr) => rows.length == 7 && hdr.length == 4
       | _ => false) = true :=
-  ⟨dbFlushed_tableDB.inv, catalogOK_tableDB.1, .inl ⟨[], rfl⟩, catalogOK_tableDB.2⟩
+  ⟨dbFlushed_tableDB.inv, catalogOK_tableDB.1, by decide, catalogOK_tableDB.2⟩
 
 /-- **C18.parsed_select_has_the_shape**: the shape hypothesis of `C18_no_panic_partial` and of the theorems
-above holds of every SELECT `Parser.Parse` returns (`C10_parsed_statements_are_wellformed`: `*` stands
-alone in a select list) -/
+above holds of every SELECT `Parser.Parse` returns (`C10_parsed_statements_are_wellformed`: the select
+list is `*` alone or a non-empty list without `*`, and a negative LIMIT / OFFSET is refused with
+`ErrNegativeLimit` / `ErrNegativeOffset`) -/
 theorem C18_parsed_select_has_the_shape (ts : List Scan.Token) (q : Select) (h : parseTokens ts = .ok (.select q)) :
-    (∃ a, q.list = [⟨.star, a⟩]) ∨ isStar q.list = false :=
+    Exec.NoPanicP.ParsedShape q :=
   parsed_select_shape h
 
 /-- **C18.parsed_select_on_stored_tables_never_panics**: so for every token list the parser accepts as a
@@ -437,7 +495,7 @@ example : parseTokens [⟨t_SELECT, []⟩, ⟨t_ASTRSK, []⟩, ⟨t_FROM, []⟩,
 parser-produced shape over user tables never panics. -/
 theorem C18_select_after_any_history_never_panics (sts : List Sql.Stmt) (hok : HistOK [] sts newDB []) :
     ∃ db', runHist [] newDB sts = some db' ∧ ∀ q : Select,
-      ((∃ a, q.list = [⟨.star, a⟩]) ∨ isStar q.list = false) → UserTables q →
+      (Exec.NoPanicP.ParsedShape q) → UserTables q →
       (∀ n ∈ selectNames q, FetchTotal db' n) ∧ ∀ s, evaluateSelect (fetchOf db') q ≠ .panic s :=
   history_select_never_panics sts hok
 
@@ -457,7 +515,7 @@ the selected one in particular - every SELECT of a parser-produced shape over us
 tables without a crash of `Fetch` and evaluates to rows or an error value: never a panic. -/
 theorem C18_session_select_never_panics (sts : List Sql.Stmt) (hok : SessOK {} sts) :
     ∀ p ∈ (runAll {} sts).1.dbs, ∀ q : Select,
-      ((∃ a, q.list = [⟨.star, a⟩]) ∨ isStar q.list = false) → UserTables q →
+      (Exec.NoPanicP.ParsedShape q) → UserTables q →
       (∀ n ∈ selectNames q, FetchTotal p.2 n) ∧ ∀ x, evaluateSelect (fetchOf p.2) q ≠ .panic x :=
   session_select_never_panics sts hok
 
@@ -490,7 +548,7 @@ example : SessInv sessT ∧ SessOK sessT [.select exGroupQuery, .select exJoinQu
 
 /-- the same from any session that satisfies the invariant -/
 theorem C18_session_state_select_never_panics (s : Sess) (h : SessInv s) :
-    ∀ p ∈ s.dbs, ∀ q : Select, ((∃ a, q.list = [⟨.star, a⟩]) ∨ isStar q.list = false) → UserTables q →
+    ∀ p ∈ s.dbs, ∀ q : Select, (Exec.NoPanicP.ParsedShape q) → UserTables q →
       (∀ n ∈ selectNames q, FetchTotal p.2 n) ∧ ∀ x, evaluateSelect (fetchOf p.2) q ≠ .panic x :=
   sessInv_select_never_panics h
 
@@ -538,16 +596,15 @@ and whose FROM clause names user tables (`hn`):
 comparable values on `want`: a well-typed query is not refused at the session level either
 (`C05_meaningful_query_is_answered`, `C06_…`, `C07_join_…` composed with the invariant; `WellShaped` of C07
 is discharged by `Typed (w n)`, a consequence of the invariant).  `hgrp` (only for a query with aggregates
-or GROUP BY): the select list does not start with `*` and `avgGroupsConstant` (the hypotheses of
-`C07_join_meaningful_query_is_answered`; the latter holds of every query without AVG:
-`C07_avgGroupsConstant_of_noAvg`).
+or GROUP BY): `avgGroupsConstant` (the hypothesis of `C07_join_meaningful_query_is_answered`; it holds of
+every query without AVG: `C07_avgGroupsConstant_of_noAvg`).
 Not covered: with no database selected the statement is refused with `noDbSelected`
 (`C17_no_database_selected`); that the key columns of a meaning over typed tables ARE comparable is not
 derived here (`hcomp` stays a hypothesis), and a query with AVG over a group of unequal values is only
 covered by (1)-(3). -/
 theorem C18_session_select_is_answered_or_refused (s : Sess) (w : String → Spec.SDB) (h : SessAbs s w)
     (n : String) (hc : s.cur = some n) (q : Select)
-    (hq : (∃ a, q.list = [⟨.star, a⟩]) ∨ isStar q.list = false) (hn : UserTables q) :
+    (hq : Exec.NoPanicP.ParsedShape q) (hn : UserTables q) :
     (exec s (.select q)).1 = s ∧
     ((exec s (.select q)).2 = Out.ok ∨ ∃ e, (exec s (.select q)).2 = Out.err (stmtErr (.exec e))) ∧
     (exec s (.select q)).2 = selectOut (evaluateSelect (fetchOfPlain (w n)) q) ∧
@@ -555,7 +612,7 @@ theorem C18_session_select_is_answered_or_refused (s : Sess) (w : String → Spe
       Spec.meaning (fetchOfPlain (w n)) q = some want →
       Spec.sortKeys q (judgeHeader (fetchOfPlain (w n)) q) = some keys →
       (∀ a ∈ want, ∀ b ∈ want, KeyComparable keys a b) →
-      (groups q = true → isStar q.list = false ∧ avgGroupsConstant (fetchOfPlain (w n)) q = true) →
+      (groups q = true → avgGroupsConstant (fetchOfPlain (w n)) q = true) →
       (exec s (.select q)).2 = Out.ok := by
   obtain ⟨he, hnp⟩ := session_select_outcome h hc q hn
   refine ⟨by rw [he], ?_, by rw [he], fun want keys hm hk hcomp hgrp => ?_⟩
@@ -564,7 +621,7 @@ theorem C18_session_select_is_answered_or_refused (s : Sess) (w : String → Spe
     | ok r => exact .inl rfl
     | err e => exact .inr ⟨e, rfl⟩
     | panic x => exact absurd hr (hnp hq x)
-  · rw [session_meaningful_select_answered h hc q hn hm hk hcomp hgrp]
+  · rw [session_meaningful_select_answered h hc q hq hn hm hk hcomp hgrp]
 
 open Mkdb.Exec.MeaningP Mkdb.Exec.SelectP in
 /-- non-vacuity, with rows: `INSERT INTO t VALUES (5), (6)` in the session `sessT` is accepted and leaves a
@@ -574,7 +631,7 @@ key resolves, the keys are comparable, no AVG: every hypothesis of the theorem h
 the query -/
 example : ∃ s1 w, exec sessT (.insert tname [] [[.int 5], [.int 6]]) = (s1, .ok) ∧ SessAbs s1 w ∧
     s1.cur = some "d" ∧ w "d" = sdbA1 ∧
-    ((∃ a, exGroupQuery.list = [⟨.star, a⟩]) ∨ isStar exGroupQuery.list = false) ∧ UserTables exGroupQuery ∧
+    (Exec.NoPanicP.ParsedShape exGroupQuery) ∧ UserTables exGroupQuery ∧
     Spec.meaning (fetchOfPlain sdbA1) exGroupQuery = some [[.int 5, .int 1], [.int 6, .int 1]] ∧
     Spec.sortKeys exGroupQuery (judgeHeader (fetchOfPlain sdbA1) exGroupQuery) = some [(0, false)] ∧
     (∀ a ∈ [[Tuple.Val.int 5, .int 1], [.int 6, .int 1]], ∀ b ∈ [[Tuple.Val.int 5, .int 1], [.int 6, .int 1]],
@@ -586,7 +643,7 @@ example : ∃ s1 w, exec sessT (.insert tname [] [[.int 5], [.int 6]]) = (s1, .o
   refine ⟨s1, w, e, h1, hc, hw, exQueries_ok.1, exQueries_ok.2.1, hm, hk, hcomp, hs, havg, ?_⟩
   have h4 := (C18_session_select_is_answered_or_refused s1 w h1 "d" hc exGroupQuery exQueries_ok.1
     exQueries_ok.2.1).2.2.2 _ _ (by rw [hw]; exact hm) (by rw [hw]; exact hk) hcomp
-    (fun _ => ⟨hs, by rw [hw]; exact havg⟩)
+    (fun _ => by rw [hw]; exact havg)
   have h1' := (C18_session_select_is_answered_or_refused s1 w h1 "d" hc exGroupQuery exQueries_ok.1
     exQueries_ok.2.1).1
   exact Prod.ext h1' h4
@@ -686,7 +743,7 @@ from the leftmost leaf of the page table), `evaluateSelect (fetchOf db) q` is `.
 of one kind or NULL. -/
 theorem C18_select_on_catalog_tables_never_panics (db : Engine.DB) (sdb : Spec.SDB) (pt sch : Levels)
     (tbls : List (Bytes × Levels)) (h : DbInv db sdb pt sch tbls) (hs : CatSelf pt sch) (q : Select)
-    (hq : (∃ a, q.list = [⟨.star, a⟩]) ∨ isStar q.list = false) :
+    (hq : Exec.NoPanicP.ParsedShape q) :
     (∀ n ∈ selectNames q, FetchTotal db n) ∧ (∀ s, evaluateSelect (fetchOf db) q ≠ .panic s) ∧
     ∀ rows hdr, evaluateSelect (fetchOf db) q = .ok (rows, hdr) → ∃ ks : List Kind, ∀ r ∈ rows, rowHas ks r = true :=
   select_never_panics_self h.abs hs q hq
@@ -696,9 +753,9 @@ sys_schema ORDER BY field_type`, `SELECT * FROM sys_pages p JOIN sys_schema s ON
 ORDER BY s.field_name` and `SELECT * FROM sys_pages` have the parser shape, do NOT meet `UserTables`, and
 evaluate (computed by the kernel) to 7 rows × 4 columns, 7 × 6, 3 × 2 -/
 example : DbInv tableDB sdbA0 ptT schT [(tname, tT)] ∧ CatSelf ptT schT ∧
-    ((∃ a, exCatalogQuery.list = [⟨.star, a⟩]) ∨ isStar exCatalogQuery.list = false) ∧
-    ((∃ a, exCatalogJoin.list = [⟨.star, a⟩]) ∨ isStar exCatalogJoin.list = false) ∧
-    ((∃ a, exPagesQuery.list = [⟨.star, a⟩]) ∨ isStar exPagesQuery.list = false) ∧
+    (Exec.NoPanicP.ParsedShape exCatalogQuery) ∧
+    (Exec.NoPanicP.ParsedShape exCatalogJoin) ∧
+    (Exec.NoPanicP.ParsedShape exPagesQuery) ∧
     ¬ UserTables exCatalogQuery ∧ ¬ UserTables exCatalogJoin ∧ ¬ UserTables exPagesQuery ∧
     selectSize (evaluateSelect (fetchOf tableDB) exCatalogQuery) = some (7, 4) ∧
     selectSize (evaluateSelect (fetchOf tableDB) exCatalogJoin) = some (7, 6) ∧
@@ -720,7 +777,7 @@ the old root, which `split` keeps as the leftmost leaf. -/
 theorem C18_select_on_a_split_page_table :
     db8.store.hdr.ptRoot = 53248 ∧ SelfOK db8 ∧
     (∀ sdb pt sch tbls, DbInv db8 sdb pt sch tbls → (sysPages, 4096) ∈ ptEntries pt → ∀ q : Select,
-      ((∃ a, q.list = [⟨.star, a⟩]) ∨ isStar q.list = false) → ∀ s, evaluateSelect (fetchOf db8) q ≠ .panic s) ∧
+      (Exec.NoPanicP.ParsedShape q) → ∀ s, evaluateSelect (fetchOf db8) q ≠ .panic s) ∧
     selectSize (evaluateSelect (fetchOf db8) exPagesQuery) = some (10, 2) ∧
     selectSize (evaluateSelect (fetchOf db8) exCatalogJoin) = some (14, 6) :=
   ⟨db8_ptRoot, selfOK_db8,
@@ -757,7 +814,7 @@ by the plain model (with room) or refused before a change (`HistOK`); the run ke
 panics. -/
 theorem C18_select_after_any_history_never_panics_any_table (sts : List Sql.Stmt) (hok : HistOK [] sts newDB []) :
     ∃ db', runHist [] newDB sts = some db' ∧ ∀ q : Select,
-      ((∃ a, q.list = [⟨.star, a⟩]) ∨ isStar q.list = false) →
+      (Exec.NoPanicP.ParsedShape q) →
       (∀ n ∈ selectNames q, FetchTotal db' n) ∧ ∀ s, evaluateSelect (fetchOf db') q ≠ .panic s :=
   history_select_never_panics_any sts hok
 
@@ -831,13 +888,13 @@ GONE: in the session any list of statements leaves, on EVERY database of the ses
 parser-produced shape over any tables reads its tables without a crash of `Fetch` and evaluates to rows or
 an error value. -/
 theorem C18_session_select_never_panics_any_table (sts : List Sql.Stmt) (hok : SessOKAny {} sts) :
-    ∀ p ∈ (runAll {} sts).1.dbs, ∀ q : Select, ((∃ a, q.list = [⟨.star, a⟩]) ∨ isStar q.list = false) →
+    ∀ p ∈ (runAll {} sts).1.dbs, ∀ q : Select, (Exec.NoPanicP.ParsedShape q) →
       (∀ n ∈ selectNames q, FetchTotal p.2 n) ∧ ∀ x, evaluateSelect (fetchOf p.2) q ≠ .panic x :=
   sessInvAny_select_never_panics (C18_session_never_crashes_any_table sts hok).2
 
 /-- the same from any session that satisfies `SessInvAny` -/
 theorem C18_session_state_select_never_panics_any_table (s : Sess) (h : SessInvAny s) :
-    ∀ p ∈ s.dbs, ∀ q : Select, ((∃ a, q.list = [⟨.star, a⟩]) ∨ isStar q.list = false) →
+    ∀ p ∈ s.dbs, ∀ q : Select, (Exec.NoPanicP.ParsedShape q) →
       (∀ n ∈ selectNames q, FetchTotal p.2 n) ∧ ∀ x, evaluateSelect (fetchOf p.2) q ≠ .panic x :=
   sessInvAny_select_never_panics h
 
@@ -851,7 +908,7 @@ and is answered (`Out.ok`) or refused with an error value of the executor - neve
 and (4) of that theorem compare with the evaluation on the PLAIN database, which has no catalog tables
 (there `sys_pages` is an unknown table): they stay as they are, for user tables. -/
 theorem C18_session_select_any_table_is_answered_or_refused (s : Sess) (h : SessInvAny s) (n : String)
-    (hc : s.cur = some n) (q : Select) (hq : (∃ a, q.list = [⟨.star, a⟩]) ∨ isStar q.list = false) :
+    (hc : s.cur = some n) (q : Select) (hq : Exec.NoPanicP.ParsedShape q) :
     (exec s (.select q)).1 = s ∧
     ((exec s (.select q)).2 = Out.ok ∨ ∃ e, (exec s (.select q)).2 = Out.err (stmtErr (.exec e))) := by
   obtain ⟨⟨w, hw⟩, hs⟩ := h
